@@ -143,6 +143,7 @@ struct SimOut {
     timeouts: u64,
     hung_without_timeout: u64,
     requests: u64,
+    by_value: u64,
     fault_events: u64,
     faults_overlapping_requests: u64,
     sim_error: Option<String>,
@@ -238,6 +239,9 @@ fn run_sim(seed: u64, idx: u64) -> SimOut {
                     spans.lock().unwrap().push((start, end));
                     let mut o = out.lock().unwrap();
                     o.requests += 1;
+                    if by_value {
+                        o.by_value += 1;
+                    }
                     let ctx = |extra: Value| json!({"request": req.id, "client": ci, "server": req.server, "handler_delay_ms": req.delay_ms, "reply_len": req.reply_len, "client_timeout_ms": timeout, "sent_at_ms": start as u64, "completed_at_ms": end as u64, "observed": extra});
                     match res {
                         Err(_) => {
@@ -321,7 +325,7 @@ fn child(args: &Args) {
         let res = std::panic::catch_unwind(|| run_sim(args.seed, idx));
         let line = match res {
             Ok(o) => json!({"idx": idx, "problems": o.problems.iter().map(|(w, d)| json!([w, d])).collect::<Vec<_>>(), "ok": o.ok, "conn_err": o.conn_err, "timeouts": o.timeouts,
-                "hung": o.hung_without_timeout, "requests": o.requests, "fault_events": o.fault_events, "faults_overlapping": o.faults_overlapping_requests, "sim_error": o.sim_error}),
+                "hung": o.hung_without_timeout, "requests": o.requests, "by_value": o.by_value, "fault_events": o.fault_events, "faults_overlapping": o.faults_overlapping_requests, "sim_error": o.sim_error}),
             Err(_) => json!({"idx": idx, "panicked": true}),
         };
         writeln!(f, "{line}").unwrap();
@@ -464,6 +468,7 @@ fn absorb_lines(report: &mut Report, text: &str, seed: u64, _stderr: &str) {
         let mut out = CaseOut::default();
         out.count("simulations", 1);
         out.count("requests", v["requests"].as_u64().unwrap_or(0));
+        out.count("requests_sent_by_value_(send_owned)", v["by_value"].as_u64().unwrap_or(0));
         out.count("replies_checked", v["ok"].as_u64().unwrap_or(0));
         out.count("connection_errors", v["conn_err"].as_u64().unwrap_or(0));
         out.count("timeouts", v["timeouts"].as_u64().unwrap_or(0));
